@@ -200,6 +200,33 @@ func (h *SH) CallBackBlock(ctx context.Context, tok int) (int, error) {
 
 func (h *SH) Note(tok int) { h.C.enter(nil, "Note", tok) }
 
+// NoteCtx is a notification whose function takes a context.
+func (h *SH) NoteCtx(ctx context.Context, tok int) { h.C.enter(ctx, "NoteCtx", tok) }
+
+// SubEnd streams until released, then closes its channel (the server side ends the subscription).
+func (h *SH) SubEnd(ctx context.Context, tok int) (<-chan int, error) {
+	h.C.enter(ctx, "SubEnd", tok)
+	out := make(chan int)
+	rel := h.C.relChan(tok)
+	go func() {
+		defer close(out)
+		defer h.C.exit(tok, "stream-end")
+		i := 0
+		for {
+			select {
+			case out <- tok*1000000 + i:
+				i++
+				time.Sleep(200 * time.Microsecond)
+			case <-rel:
+				return
+			case <-ctx.Done():
+				return
+			}
+		}
+	}()
+	return out, nil
+}
+
 // Sub streams n values tok*1000000+i; it sends as fast as the library takes them.  n < 0: stream until cancelled.
 func (h *SH) Sub(ctx context.Context, tok int, n int) (<-chan int, error) {
 	h.C.enter(ctx, "Sub", tok)
@@ -333,6 +360,7 @@ type CL struct {
 	Sub           func(context.Context, int, int) (<-chan int, error)
 	SubSlow       func(context.Context, int, int) (<-chan int, error)
 	SubRich       func(context.Context, int, int) (<-chan Rich, error)
+	SubEnd        func(context.Context, int) (<-chan int, error)
 	CallBack      func(context.Context, int) (int, error)
 	BlockBig      func(context.Context, int, int) (string, error)
 	NoteBlock     func(int) `notify:"true"`
